@@ -24,7 +24,7 @@ ASSUMPTIONS = [
     'db.disconnect() called by the child is not a session operation and is outside the theorem (Pool.disconnect closes pool.con without a pid check - see notes/C36.md)',
     'in-memory SQLite databases (:memory:, :sharedmemory:) are outside the statement (a new connection is a new database)',
 ]
-RULE = ('real os.fork() scenarios: parent history (11 fork points: never connected, pooled after read / write / rollback, disconnected, session begun without '
+RULE = ('every implementation run is judged twice - by the Coq model (correspondence) and by the statement-level oracle (search): `evaluations` counts both judgements, `distinct_nontrivial` counts each distinct run once. ' 'real os.fork() scenarios: parent history (11 fork points: never connected, pooled after read / write / rollback, disconnected, session begun without '
         'statement, session begun with pooled connection, live read-only session, live session after an earlier commit, nested live session, open write '
         'transaction) x child programs (new sessions with reads and writes, continuing the inherited session, rollback) x parent continuation; '
         'non-trivial = the child touched a connection or the pool parked one; distinct = distinct (before, child, after)')
@@ -102,6 +102,7 @@ def run_scenarios(ctx, scs, procs=4):
 
 
 _cache = {}
+_counted = set()      # result sets whose non-trivial cases were already counted by correspondence()
 
 def get_results(ctx, deep=False):
     key = (ctx.seed, ctx.tier, deep)
@@ -179,12 +180,14 @@ def child_ok(r):
 
 
 def nontrivial(r):
+    if not child_ok(r): return False
     ch = r['child']
-    return child_ok(r) and (any(o['events'] for o in ch['ops']) or bool(ch['book']['forked']))
+    return (any(o['events'] for o in ch['ops']) or bool(ch['book']['forked']))
 
 
 def correspondence(ctx):
     scs, res, info = get_results(ctx, False)
+    _counted.add((ctx.seed, ctx.tier, False))
     exprs, meta, disagreements = [], [], []
     dist = {}
     nontriv = set()
@@ -290,6 +293,7 @@ def search(ctx, deep):
     for sc in scs: dist[sc['point']] = dist.get(sc['point'], 0) + 1
     dist['failing_scenarios_by_key'] = seen
     nt = set(json.dumps(sc, sort_keys=True) for sc, r in zip(scs, res) if nontrivial(r))
+    if (ctx.seed, ctx.tier, deep) in _counted: nt = set()      # same executions as the correspondence run: count distinct cases once
     return Search(evaluations=len(scs), failures=fails, nontrivial=len(nt), distribution=dist, exhaustive=False,
                   samples=[{'scenario': scs[1], 'child_pool_connect_calls': (res[1].get('child') or {}).get('pool_connect_calls')}])
 
@@ -301,7 +305,7 @@ def replay(ctx, data):
     want = data.get('key')
     for f in fails:
         if want is None or f.key == want: return f
-    return fails[0] if fails else None
+    return None
 
 
 LEVEL_TEXT = ('Machine-checked proof (Coq 8.16.1) over Pool.connect / OraPool.connect as re-translated from the source on every run and a hand-written model of '
